@@ -927,7 +927,9 @@ class SymExec(object):
                 for s_ in owner.body:
                     if isinstance(s_, ast.FunctionDef) and s_.name == f[2]:
                         fd = s_
-        if fd is None or fd in self._stack or fd.name in self.no_inline or self.canonical(fd.name) in self.no_inline:
+        local_name = f[1] if f[0] == 'name' else (f[2] if f[0] == 'attr' else None)
+        if fd is None or fd in self._stack or fd.name in self.no_inline or self.canonical(fd.name) in self.no_inline \
+                or (isinstance(local_name, str) and local_name in self.no_inline):
             return None
         deco = [src(d) for d in fd.decorator_list]
         if any(d not in ('staticmethod', 'classmethod') for d in deco):
